@@ -18,6 +18,10 @@ Part B - doubles: `Dbl` (the CommsObject interface with an answer script, a log 
 `Sink`, `Src` (picklable callables), `FakeSocket` + `FakeSocketModule` (stand-in for the `socket` module seen by
 `udp_bridge`, so that a real UDPObject can be opened, closed, sent to and received from without a network).
 All of them are module level so that explored states pickle.
+
+Part C - `ToyHub`: a small hub with the same interface as the library's `Comms`, written from the property (not copied
+from the library), with switchable seeded faults.  Only the self-tests use it: it lets the harness (world, judge,
+TLC bridge) be exercised, and its sensitivity demonstrated, without the library.
 """
 from collections import Counter
 
@@ -284,3 +288,89 @@ def install_fake_socket():
     if udp_bridge.socket is not FakeSocketModule:
         udp_bridge.socket = FakeSocketModule
     return udp_bridge
+
+
+# ---------------------------------------------------------------------------------------------------------------------
+# toy hub (self-tests only)
+# ---------------------------------------------------------------------------------------------------------------------
+class ToyHub:
+    FAULTS = ("nodata_fanout", "dup_rule", "del_true", "src_twice", "dest_sinks", "sinks_only", "empty_dropped",
+              "wrong_port_open")
+
+    def __init__(self, fault=None):
+        self.fault = fault
+        self.endpoints = {}
+        self.forwarding = {}
+        self.output_functions = {}
+        self.input_functions = {}
+
+    def getCom(self, name):
+        return self.endpoints.get(name)
+
+    def _add(self, table, key, item):
+        lst = table.setdefault(key, [])
+        if item in lst and self.fault != "dup_rule":
+            return False
+        lst.append(item)
+        return True
+
+    def setForwardData(self, i, o):
+        if i not in self.endpoints or o not in self.endpoints:
+            return False
+        return self._add(self.forwarding, i, self.endpoints[o])
+
+    def deleteForwardingRule(self, i, o):
+        if o in self.endpoints and self.endpoints[o] in self.forwarding.get(i, []):
+            self.forwarding[i].remove(self.endpoints[o])
+            return True
+        return self.fault == "del_true"
+
+    def setDataSink(self, i, fn):
+        if i not in self.endpoints or fn is None:
+            return False
+        return self._add(self.output_functions, i, fn)
+
+    def setDataSource(self, o, fn):
+        if o not in self.endpoints or fn is None:
+            return False
+        return self._add(self.input_functions, o, fn)
+
+    def openCom(self, name):
+        if self.fault == "wrong_port_open" and name in self.endpoints:
+            name = sorted(self.endpoints)[0]
+        return self.endpoints[name].openCom() if name in self.endpoints else False
+
+    def closeCom(self, name):
+        return self.endpoints[name].closeCom() if name in self.endpoints else False
+
+    def sendData(self, name, data):
+        if name in self.endpoints:
+            return self.endpoints[name].sendData(data)
+
+    def getData(self, name):
+        if name not in self.endpoints:
+            return None
+        data = self.endpoints[name].getData()
+        if data is None and self.fault != "nodata_fanout":
+            return None
+        if data == "" and self.fault == "empty_dropped":
+            return None
+        if self.fault != "sinks_only" or name not in self.output_functions:
+            for dest in self.forwarding.get(name, []):
+                dest.sendData(data)
+        sinks = self.output_functions.get(name, [])
+        if self.fault == "dest_sinks":
+            sinks = [f for dest in self.forwarding.get(name, []) for f in self.output_functions.get(dest.name, [])]
+        for f in sinks:
+            f(data)
+        return data
+
+    def spin(self, n=-1):
+        for _ in range(n):
+            for name, ep in self.endpoints.items():
+                for f in self.input_functions.get(name, []):
+                    ep.sendData(f())
+                    if self.fault == "src_twice":
+                        ep.sendData(f())
+                if self.forwarding.get(name) or self.output_functions.get(name):
+                    self.getData(name)
